@@ -426,7 +426,7 @@ Section Refine.
   Lemma rel_enter st st0 ss p :
     InvP st -> Rel st ss -> FL st -> prep st st0 p -> alookup (s_mods ss) p = None ->
     let st1 := entered st0 p in
-    Rel st1 (spec_begin (B ++ C) (mksstate (s_mods ss) (p :: s_loads ss) (s_ran ss)) p)
+    Rel st1 (spec_begin (B ++ C) (mksstate (s_mods ss) (p :: s_loads ss) (s_ran ss) (s_old ss)) p)
     /\ FL st1 /\ ext st st1.
   Proof.
     intros I R F P Hs st1. destruct P as [Ph Pf Pl Phd Pds Pn Po Pd].
@@ -601,7 +601,7 @@ Section Refine.
 
   (* ============================================================================================ *)
   (* the simulation *)
-  Notation RT := (run_task prog cm B fm true true true).
+  Notation RT := (run_task prog cm B fm true true true true).
   Notation ST := (srun_task prog (B ++ C) fm).
   Notation GG := (get_global prog cm B fm true true true).
   Notation DS := (do_step prog cm B fm true true true).
@@ -682,6 +682,63 @@ Section Refine.
     rewrite forallb_forall in H. apply (H _ E).
   Qed.
 
+  (* ---- escape-free programs: no function value is stored in another module (SSetAttrFn) ---- *)
+  Fixpoint ef_stmt (s : stmt) : bool :=
+    let fix ef_list (l : list stmt) : bool := match l with [] => true | a :: r => ef_stmt a && ef_list r end in
+    match s with
+    | SSetAttrFn _ _ _ => false
+    | STry b | SBlock b | SLamCall b => ef_list b
+    | _ => true
+    end.
+
+  Lemma ef_try b : ef_stmt (STry b) = forallb ef_stmt b.
+  Proof. simpl. induction b as [|a b IH]; simpl; auto; try (rewrite IH; reflexivity). Qed.
+  Lemma ef_block b : ef_stmt (SBlock b) = forallb ef_stmt b.
+  Proof. simpl. induction b as [|a b IH]; simpl; auto; try (rewrite IH; reflexivity). Qed.
+  Lemma ef_lam b : ef_stmt (SLamCall b) = forallb ef_stmt b.
+  Proof. simpl. induction b as [|a b IH]; simpl; auto; try (rewrite IH; reflexivity). Qed.
+
+  Definition ef_top (t : top) : bool :=
+    match t with TStmt s => ef_stmt s | TDef _ _ => true | TFn _ b => forallb ef_stmt b end.
+  Definition ef_mod (m : modsrc) : bool := match m with MOk ts => forallb ef_top ts | _ => true end.
+  Definition ef_prog : bool := forallb ef_mod prog.
+
+  Definition ef_task (tk : task) : bool :=
+    match tk with
+    | TkExec l _ => forallb ef_stmt l
+    | TkExec1 s _ => ef_stmt s
+    | TkCall _ _ => true
+    | TkFiber _ _ _ => true
+    | TkTops ts _ => forallb ef_top ts
+    end.
+
+  Lemma find_fn_in_ef ts i key body : forallb ef_top ts = true -> find_fn_in ts i key = Some body -> forallb ef_stmt body = true.
+  Proof.
+    induction ts as [|t ts IH]; simpl; [discriminate|]. intros H. apply andb_true_iff in H. destruct H as [H1 H2].
+    destruct t; auto. destruct (String.eqb (fn_key i f) key); auto. intros E; inversion E; subst; auto.
+  Qed.
+
+  Lemma find_fn_from_ef l i key body :
+    forallb ef_mod l = true -> find_fn_from l i key = Some body -> forallb ef_stmt body = true.
+  Proof.
+    revert i. induction l as [|m l IH]; simpl; intros i; [discriminate|]. intros H. apply andb_true_iff in H. destruct H as [H1 H2].
+    destruct m; try (apply IH; exact H2).
+    destruct (find_fn_in ts i key) eqn:E; [|apply IH; exact H2]. intros E2; inversion E2; subst.
+    eapply find_fn_in_ef; eauto.
+  Qed.
+
+  Lemma find_fn_ef key body : ef_prog = true -> find_fn prog key = Some body -> forallb ef_stmt body = true.
+  Proof. apply find_fn_from_ef. Qed.
+
+  Lemma compiled_ef P i ts : ef_prog = true -> cp P i = CompOk ts -> forallb ef_top ts = true.
+  Proof.
+    unfold ef_prog, prog_compiler. intros H. destruct (nth_error prog i) as [[ts'| |k]|] eqn:E; try discriminate.
+    intros E2; inversion E2; subst. apply nth_error_In in E.
+    rewrite forallb_forall in H. apply (H _ E).
+  Qed.
+
+  Hypothesis Hef : ef_prog = true.
+
   (* the two compiler oracles (with and without the messages) agree on success *)
   Lemma comp_rel P i :
     match cp P i, prog_compiler prog [] P i with
@@ -738,10 +795,21 @@ Section Refine.
 
   Lemma ils_set ss q x v p : ils (set_sglobal ss q x v) p = ils ss p.
   Proof.
-    unfold set_sglobal. destruct (alookup (s_mods ss) q) as [sm|] eqn:E; auto.
+    unfold set_sglobal. destruct (alookup (s_mods ss) q) as [sm|] eqn:E; [|destruct (alookup (s_old ss) q); reflexivity].
     unfold ils, set_mod. simpl. destruct (String.eqb q p) eqn:Eq.
     - apply String.eqb_eq in Eq; subst p. rewrite alookup_ainsert_same, E. reflexivity.
     - rewrite alookup_ainsert_other; auto. intros ->. rewrite String.eqb_refl in Eq. discriminate.
+  Qed.
+
+  Lemma alookup_rename_all p q l r : alookup (rename_all p q l) r = option_map (rename_mod p q) (alookup l r).
+  Proof.
+    unfold rename_all. induction l as [|[k m] l IH]; simpl; auto. destruct (String.eqb k r); simpl; auto.
+  Qed.
+
+  Lemma ils_retire ss p m r : ils (retire ss p m) r = if String.eqb p r then false else ils ss r.
+  Proof.
+    unfold ils, retire. simpl. rewrite alookup_rename_all, alookup_aremove.
+    destruct (String.eqb p r); simpl; auto. destruct (alookup (s_mods ss) r); reflexivity.
   Qed.
 
   Lemma SB_sget sx0 cur sx nm k : (forall p, ils (ss sx) p = ils (ss sx0) p) -> (forall v, SB sx0 (k v)) -> SB sx0 (sget cur sx nm k).
@@ -779,7 +847,7 @@ Section Refine.
           destruct (prog_compiler prog [] P sr) as [body|msgs]; [|simpl; auto].
           destruct (Nat.eqb depth fm); [simpl; auto|].
           cbn [ss sout sfl].
-          set (sx1 := mksx (s_begin (B ++ C) (mksstate (s_mods (ss sx0)) (P :: s_loads (ss sx0)) (s_ran (ss sx0))) P) (sout sx0) (sfl sx0)).
+          set (sx1 := mksx (s_begin (B ++ C) (mksstate (s_mods (ss sx0)) (P :: s_loads (ss sx0)) (s_ran (ss sx0)) (s_old (ss sx0))) P) (sout sx0) (sfl sx0)).
           assert (H1 : forall q, ils (ss sx1) q = if String.eqb P q then true else ils (ss sx0) q).
           { intros q. unfold sx1, s_begin, spec_begin, ils. simpl. destruct (String.eqb P q) eqn:E.
             - apply String.eqb_eq in E; subst q. rewrite alookup_ainsert_same. reflexivity.
@@ -793,14 +861,14 @@ Section Refine.
             destruct (String.eqb P q) eqn:E.
             - apply String.eqb_eq in E; subst q.
               assert (H0 : ils (ss sx0) P = false) by (unfold ils; rewrite Es; reflexivity). rewrite H0.
-              destruct b; unfold ils, set_mod; simpl.
+              destruct b; [unfold ils, set_mod; simpl|].
               + rewrite alookup_ainsert_same. reflexivity.
-              + rewrite alookup_aremove, String.eqb_refl. reflexivity.
+              + rewrite ils_retire, String.eqb_refl. reflexivity.
             - assert (Hne : P <> q) by (intros ->; rewrite String.eqb_refl in E; discriminate).
               specialize (H q). rewrite H1, E in H. rewrite <- H.
-              destruct b; unfold ils, set_mod; simpl.
+              destruct b; [unfold ils, set_mod; simpl|].
               + rewrite alookup_ainsert_other; auto.
-              + rewrite alookup_aremove, E. reflexivity. }
+              + rewrite ils_retire, E. reflexivity. }
           destruct (ST fuel P (S depth) (SkTops body (N.to_nat p)) sx1) as [e2 sx2|se2 sx2| | |]; auto.
           -- apply SB_sbind. simpl. apply Hfin. exact H2.
           -- simpl. apply Hfin. exact H2.
@@ -821,6 +889,11 @@ Section Refine.
         intros _. simpl. exact H1.
       + pose proof (IH cur depth (SkExec body ([] :: env)) sx0) as H1.
         destruct (ST fuel cur depth (SkExec body ([] :: env)) sx0) as [e1 sx1|se1 sx1| | |]; auto.
+      + apply SB_sresolve; [exact R0|]. intros w. destruct w; simpl; auto.
+        apply SB_sget; [exact R0|]. intros u. simpl. intros q. apply ils_set.
+      + destruct (Nat.eqb depth fm); [simpl; auto|].
+        pose proof (IH cur (S depth) (SkExec body ([] :: env)) sx0) as H1.
+        destruct (ST fuel cur (S depth) (SkExec body ([] :: env)) sx0) as [e1 sx1|se1 sx1| | |]; auto.
     - destruct w; simpl; auto. destruct (find_fn prog f); simpl; auto.
       destruct (Nat.eqb depth fm); [simpl; auto|].
       pose proof (IH p (S depth) (SkExec l [[]]) sx0) as H1.
@@ -930,6 +1003,34 @@ Section Refine.
               alookup (reg st) p = None
               \/ exists id, alookup (reg st) p = Some id /\ m_imported (getmod st id) = false /\ is_loading st id = false
   }.
+
+  (* retiring a failed instance renames the function values of its path: no module the Mechanism still knows holds one *)
+  Lemma aeq_rename st id g r p q :
+    InvP st -> alookup (reg st) r = Some id -> r <> p -> aeq st id g ->
+    aeq st id (map (fun kv => (fst kv, rename_val p q (snd kv))) g).
+  Proof.
+    intros I Hr Hne [H1 H2]. split; [|exact H2]. intros x.
+    assert (Hm : alookup (map (fun kv : name * svalue => (fst kv, rename_val p q (snd kv))) g) x
+                 = option_map (rename_val p q) (alookup g x)).
+    { clear. induction g as [|[k v] g IH]; simpl; auto. destruct (String.eqb k x); simpl; auto. }
+    rewrite Hm, H1. destruct (alookup (attrs_of st id) x) as [v|] eqn:E; simpl; auto. f_equal.
+    specialize (H2 x v E). destruct v; simpl in *; auto. subst m.
+    destruct (i_reg1 _ _ I _ _ Hr) as [_ Hp]. unfold pth. rewrite Hp.
+    destruct (String.eqb r p) eqn:Eq; auto. apply String.eqb_eq in Eq. contradiction.
+  Qed.
+
+  Lemma relz_rename st mods lds rn old old' P q :
+    InvP st -> RelZ st (mksstate mods lds rn old) -> alookup mods P = None ->
+    RelZ st (mksstate (rename_all P q mods) lds rn old').
+  Proof.
+    intros I [a b c] HP. simpl in *. constructor; simpl.
+    - exact a.
+    - intros r sm Hr. rewrite alookup_rename_all in Hr. destruct (alookup mods r) as [sm0|] eqn:E; simpl in Hr; [|discriminate].
+      inversion Hr; subst sm. assert (Hne : r <> P) by (intros ->; congruence).
+      destruct (b r sm0 E) as [(id & A1 & A2 & A3 & A4)|Z]; [left|right; exact Z].
+      exists id. simpl. split; auto. split; auto. split; auto. apply (aeq_rename st id _ r); auto.
+    - intros r Hr. rewrite alookup_rename_all in Hr. apply c. destruct (alookup mods r); [discriminate|reflexivity].
+  Qed.
 
   Lemma Rel_RelZ st ss : Rel st ss -> RelZ st ss.
   Proof. intros [a b c]. constructor; auto. Qed.
@@ -1418,7 +1519,7 @@ Section Refine.
   Qed.
 
   Definition IHsimG (fuel : nat) : Prop :=
-    forall tk stk x sx, GoodG x sx -> task_rel (ms x) tk stk ->
+    forall tk stk x sx, GoodG x sx -> ef_task tk = true -> task_rel (ms x) tk stk ->
                         SimG x (RT fuel tk x) (ST fuel (curp x) (fiber_depth (frames (ms x))) stk sx).
 
   Lemma keep_bottom_cons A k (a : A) l : k <= List.length l -> keep_bottom k (a :: l) = keep_bottom k l.
@@ -1430,15 +1531,22 @@ Section Refine.
   Lemma hw_top_le x fc hs : HW x -> handlers (ms x) = fc :: hs -> fc <= List.length (frames (ms x)).
   Proof. intros [_ H] E. rewrite E in H. inversion H as [|? ? _ Hf]; subst. inversion Hf; subst. unfold ge in *. lia. Qed.
 
-  Lemma simG_call fuel x sx env senv w sw :
-    IHsimG fuel -> GoodG x sx -> envrel (ms x) env senv -> sw = tv (ms x) w ->
-    (forall m key, w = VFn m key -> alookup (reg (ms x)) (pth (ms x) m) = Some m /\ live (ms x) m) ->
-    SimG x (RT (S fuel) (TkCall env w) x) (ST (S fuel) (curp x) (fiber_depth (frames (ms x))) (SkCall senv sw) sx).
+  (* a call: a frame of module object m runs `body` (with the locals e1) and returns *)
+  Lemma simG_frame fuel x sx env senv m body e1 se1 :
+    IHsimG fuel -> GoodG x sx -> envrel (ms x) env senv -> envrel (ms x) e1 se1 -> forallb ef_stmt body = true ->
+    alookup (reg (ms x)) (pth (ms x) m) = Some m -> live (ms x) m ->
+    SimG x (bind_s (DS x (ECall m)) (fun x1 _ =>
+              match RT fuel (TkExec body e1) x1 with
+              | RNormal _ x2 => bind_s (DS x2 EReturn) (fun x3 _ => RNormal env x3)
+              | r => r
+              end))
+           (if Nat.eqb (fiber_depth (frames (ms x))) fm then raise_s sx KIndex stack_overflow_msg
+            else match ST fuel (pth (ms x) m) (S (fiber_depth (frames (ms x)))) (SkExec body se1) sx with
+                 | QNormal _ x1 => QNormal senv x1
+                 | r => r
+                 end).
   Proof.
-    intros IH G He -> Hw. pose proof (gg_inv _ _ G) as I. pose proof (gg_rel _ _ G) as R.
-    destruct w; simpl; try reflexivity.
-    destruct (find_fn prog f) as [body|] eqn:Eb; [|reflexivity].
-    destruct (Hw m f eq_refl) as [Hr Hl].
+    intros IH G He He1 Hefb Hr Hl. pose proof (gg_inv _ _ G) as I. pose proof (gg_rel _ _ G) as R.
     destruct (i_reg1 _ _ I _ _ Hr) as [Hlt _]. apply Nat.ltb_lt in Hlt.
     destruct (Nat.eqb (fiber_depth (frames (ms x))) fm) eqn:Efm.
     - apply (sim_raise_here x x sx (ECall m) (XErr (mkerr KIndex [stack_overflow_msg]))); auto.
@@ -1459,12 +1567,12 @@ Section Refine.
         - apply (gg_dead _ _ G).
         - simpl. lia. }
       assert (Hcur1 : curp x1 = pth (ms x) m) by reflexivity.
-      pose proof (IH (TkExec body [[]]) (SkExec body [[]]) x1 sx G1) as Hb.
+      pose proof (IH (TkExec body e1) (SkExec body se1) x1 sx G1 Hefb) as Hb.
       rewrite Hcur1 in Hb. change (frames (ms x1)) with (mkframe m false false :: frames (ms x)) in Hb.
       cbn [fiber_depth f_base] in Hb.
-      specialize (Hb (conj eq_refl (Forall2_cons _ _ (Forall2_nil _) (Forall2_nil _)))).
-      destruct (RT fuel (TkExec body [[]]) x1) as [env2 x2|h2 e2 x2|e2 x2| |w2];
-        destruct (ST fuel (pth (ms x) m) (S (fiber_depth (frames (ms x)))) (SkExec body [[]]) sx) as [senv2 sx2|se2 sx2|sf2 sxf2| |w2'];
+      specialize (Hb (conj eq_refl (envrel_ext _ _ _ _ I (ext_same (ms x) (pushed (ms x) m) eq_refl eq_refl) He1))).
+      destruct (RT fuel (TkExec body e1) x1) as [env2 x2|h2 e2 x2|e2 x2| |w2];
+        destruct (ST fuel (pth (ms x) m) (S (fiber_depth (frames (ms x)))) (SkExec body se1) sx) as [senv2 sx2|se2 sx2|sf2 sxf2| |w2'];
         simpl in Hb; try contradiction; auto.
       + (* the body returned *)
         destruct Hb as (G2 & F2 & Hh2 & Hi2 & E2 & _).
@@ -1497,6 +1605,31 @@ Section Refine.
           eapply ext_trans; [apply (ext_same (ms x) (pushed (ms x) m)); reflexivity|exact A7].
   Qed.
 
+  Lemma simG_call fuel x sx env senv w sw :
+    IHsimG fuel -> GoodG x sx -> envrel (ms x) env senv -> sw = tv (ms x) w ->
+    (forall m key, w = VFn m key -> alookup (reg (ms x)) (pth (ms x) m) = Some m /\ live (ms x) m) ->
+    SimG x (RT (S fuel) (TkCall env w) x) (ST (S fuel) (curp x) (fiber_depth (frames (ms x))) (SkCall senv sw) sx).
+  Proof.
+    intros IH G He -> Hw.
+    destruct w; simpl; try reflexivity.
+    destruct (find_fn prog f) as [body|] eqn:Eb; [|reflexivity].
+    destruct (Hw m f eq_refl) as [Hr Hl].
+    apply (simG_frame fuel x sx env senv m body [[]] [[]]); auto.
+    - constructor; constructor.
+    - apply (find_fn_ef f); auto.
+  Qed.
+
+  Lemma simG_lamcall fuel x sx env senv body :
+    IHsimG fuel -> GoodG x sx -> envrel (ms x) env senv -> forallb ef_stmt body = true ->
+    SimG x (RT (S fuel) (TkExec1 (SLamCall body) env) x)
+           (ST (S fuel) (curp x) (fiber_depth (frames (ms x))) (SkExec1 (SLamCall body) senv) sx).
+  Proof.
+    intros IH G He Hb. cbn [run_task srun_task]. change (closure_mod true x) with (active (ms x)).
+    destruct (cur_entryG x sx G) as (Hr & Hl & _).
+    apply (simG_frame fuel x sx env senv (active (ms x)) body ([] :: env) ([] :: senv)); auto.
+    constructor; [constructor|exact He].
+  Qed.
+
   Lemma keep_bottom_all A (l : list A) : keep_bottom (List.length l) l = l.
   Proof. unfold keep_bottom. rewrite Nat.sub_diag. reflexivity. Qed.
 
@@ -1516,11 +1649,11 @@ Section Refine.
   Qed.
 
   Lemma simG_try fuel x sx env senv body :
-    IHsimG fuel -> GoodG x sx -> envrel (ms x) env senv ->
+    IHsimG fuel -> GoodG x sx -> envrel (ms x) env senv -> forallb ef_stmt body = true ->
     SimG x (RT (S fuel) (TkExec1 (STry body) env) x)
            (ST (S fuel) (curp x) (fiber_depth (frames (ms x))) (SkExec1 (STry body) senv) sx).
   Proof.
-    intros IH G He. pose proof (gg_inv _ _ G) as I. pose proof (gg_rel _ _ G) as R.
+    intros IH G He Hefb. pose proof (gg_inv _ _ G) as I. pose proof (gg_rel _ _ G) as R.
     cbn [run_task srun_task].
     unfold do_step at 1. unfold mstep at 1. unfold step at 1. rewrite (gg_dead _ _ G). cbn [bind_s fst snd].
     set (L := List.length (frames (ms x))).
@@ -1538,7 +1671,7 @@ Section Refine.
       - apply (gg_dead _ _ G).
       - destruct (gg_hw _ _ G) as [H1 H2]. split; [simpl; rewrite H1; reflexivity|].
         fold L in H2 |- *. constructor; auto. inversion H2; subst. constructor; auto. }
-    pose proof (IH (TkExec body ([] :: env)) (SkExec body ([] :: senv)) x1 sx G1) as Hb.
+    pose proof (IH (TkExec body ([] :: env)) (SkExec body ([] :: senv)) x1 sx G1 Hefb) as Hb.
     change (curp x1) with (curp x) in Hb. change (frames (ms x1)) with (frames (ms x)) in Hb.
     specialize (Hb (conj eq_refl (Forall2_cons _ _ (Forall2_nil _) He))).
     pose proof (sbal fuel (curp x) (fiber_depth (frames (ms x))) (SkExec body ([] :: senv)) sx) as Hsb.
@@ -1611,7 +1744,7 @@ Section Refine.
   (* ---- the states in which a failing import raises ---- *)
   Lemma rel_prep st st0 ss P :
     Rel st ss -> prep st st0 P -> alookup (s_mods ss) P = None ->
-    Rel (log_load P st0) (mksstate (s_mods ss) (P :: s_loads ss) (s_ran ss)).
+    Rel (log_load P st0) (mksstate (s_mods ss) (P :: s_loads ss) (s_ran ss) (s_old ss)).
   Proof.
     intros R [Ph Pf Pl Phd Pds Pn Po Pd] Hs.
     assert (Hg : forall j, getmod (log_load P st0) j = getmod st j) by (intros j; unfold getmod; simpl; now rewrite Ph).
@@ -1769,7 +1902,7 @@ Section Refine.
                  end)).
     { intros st0 Pp I0 Hsn Hstep. pose proof Pp as Pp'. destruct Pp' as [Ph Pf Pl Phd Pds Pn Po Pd].
       unfold s_import, spec_import. rewrite Hsn.
-      set (sxl := mksx (mksstate (s_mods (ss sx)) (P :: s_loads (ss sx)) (s_ran (ss sx))) (sout sx) (sfl sx)).
+      set (sxl := mksx (mksstate (s_mods (ss sx)) (P :: s_loads (ss sx)) (s_ran (ss sx)) (s_old (ss sx))) (sout sx) (sfl sx)).
       pose proof (rel_prep _ _ _ _ R Pp Hsn) as Rl.
       pose proof (fls_prep _ _ _ I (gg_fls _ _ G) Pp) as Fl.
       pose proof (ext_prep _ _ _ Pp I) as El0.
@@ -1824,7 +1957,7 @@ Section Refine.
         with (entered st0 P).
       cbn [dsr bind_s]. cbn [ss sout sfl].
       set (x1 := with_ms x (entered st0 P)).
-      set (sx1 := mksx (s_begin (B ++ C) (mksstate (s_mods (ss sx)) (P :: s_loads (ss sx)) (s_ran (ss sx))) P) (sout sx) (sfl sx)).
+      set (sx1 := mksx (s_begin (B ++ C) (mksstate (s_mods (ss sx)) (P :: s_loads (ss sx)) (s_ran (ss sx)) (s_old (ss sx))) P) (sout sx) (sfl sx)).
       destruct (rel_enter (ms x) st0 (ss sx) P I R (FLS_FL _ (gg_fls _ _ G)) Pp Hsn) as (R1 & _ & E1).
       assert (Hent : stepP (ms x) (EStartImport P) = (entered st0 P, OEntered (List.length (heap st0)) b)).
       { rewrite Hstep. apply (load_and_run_enter st0 P s b); auto. rewrite Pf. apply Nat.eqb_neq; exact Efm. }
@@ -1846,7 +1979,7 @@ Section Refine.
       { unfold src_of_mod, x1. simpl. rewrite getmod_entered_new. simpl.
         pose proof (loader_index P s El) as Hpi. rewrite Hpi. apply (path_index_mod_path (N.to_nat p) s). exact Hpi. }
       change id with (List.length (heap st0)). rewrite Hsrc.
-      pose proof (IH (TkTops b (N.to_nat p)) (SkTops b (N.to_nat p)) x1 sx1 G1 (conj eq_refl eq_refl)) as Hb.
+      pose proof (IH (TkTops b (N.to_nat p)) (SkTops b (N.to_nat p)) x1 sx1 G1 (compiled_ef P s b Hef Ec) (conj eq_refl eq_refl)) as Hb.
       rewrite Hcur1 in Hb.
       assert (Hfr1 : frames (ms x1) = mkframe (List.length (heap st0)) true false :: frames (ms x)) by (simpl; rewrite Pf; reflexivity).
       rewrite Hfr1 in Hb. cbn [fiber_depth f_base] in Hb.
@@ -1910,7 +2043,8 @@ Section Refine.
         { rewrite Hsb. unfold sx1, s_begin, spec_begin, ils. simpl. rewrite alookup_ainsert_same. reflexivity. }
         unfold ils in HP2. destruct (alookup (s_mods (ss sx2)) P) as [sm2|] eqn:Es2; [|discriminate].
         destruct (s_status sm2) eqn:Est2; [|discriminate].
-        unfold spec_finish. rewrite Es2.
+        unfold spec_finish. rewrite Es2. unfold retire.
+        apply relz_rename with (old := s_old (ss sx2)); [exact a0| |rewrite alookup_aremove, String.eqb_refl; reflexivity].
         constructor.
         + simpl. apply (rz_loads _ _ b0).
         + intros q sm Hq. simpl in Hq. rewrite alookup_aremove in Hq. destruct (String.eqb P q); [discriminate|].
@@ -2025,10 +2159,11 @@ Section Refine.
     destruct k as [|k']; cbn [run_task srun_task].
     - apply simG_get; auto. intros w _ Hok.
       destruct (cur_entryG x sx G) as (Hr & Hl & _).
-      apply (IH (TkCall env w) (SkCall senv (tv (ms x) w)) x sx G).
+      apply (IH (TkCall env w) (SkCall senv (tv (ms x) w)) x sx G eq_refl).
       split; [exact He|]. split; [reflexivity|]. intros m key ->. simpl in Hok. subst m. auto.
     - apply simG_get; auto. intros v _ _.
       destruct (cur_entryG x sx G) as (Hr & Hl & _).
+      change (closure_mod true x) with (active (ms x)).
       set (a := active (ms x)) in *.
       assert (Hlt : Nat.ltb a (List.length (heap (ms x))) = true) by (apply Nat.ltb_lt; apply (i_act_lt _ _ I)).
       unfold do_step at 1. unfold mstep at 1. unfold step at 1. rewrite (gg_dead _ _ G). fold a. rewrite Hlt.
@@ -2044,7 +2179,7 @@ Section Refine.
         - apply fls_pushedf; auto. apply (gg_fls _ _ G).
         - apply (gg_dead _ _ G).
         - simpl. lia. }
-      pose proof (IH (TkFiber k' f env) (SkFiber k' f senv) x2 sx G2) as Hb.
+      pose proof (IH (TkFiber k' f env) (SkFiber k' f senv) x2 sx G2 eq_refl) as Hb.
       change (curp x2) with (curp x) in Hb. change (fiber_depth (frames (ms x2))) with 1 in Hb.
       specialize (Hb (conj eq_refl (conj eq_refl (envrel_ext _ _ _ _ I (ext_same (ms x) (pushedf (ms x) a) eq_refl eq_refl) He)))).
       destruct (RT fuel (TkFiber k' f env) x2) as [env3 x3|h3 e3 x3|e3 x3| |w3];
@@ -2092,18 +2227,20 @@ Section Refine.
   (* ---- the main simulation, all programs ---- *)
   Lemma simG_task : forall fuel, IHsimG fuel.
   Proof.
-    induction fuel as [|fuel IH]; intros tk stk x sx G Ht.
+    induction fuel as [|fuel IH]; intros tk stk x sx G Hf Ht.
     { simpl. exact Logic.I. }
     pose proof (gg_inv _ _ G) as I. pose proof (Same_refl x) as Sx.
-    destruct tk as [l env|s env|env w|k f env|ts src]; destruct stk as [l' senv|s' senv|senv sw|k1 f1 senv|ts' src']; simpl in Ht; try contradiction.
+    destruct tk as [l env|s env|env w|k f env|ts src]; destruct stk as [l' senv|s' senv|senv sw|k1 f1 senv|ts' src']; simpl in Ht; try contradiction;
+      cbn [ef_task] in Hf.
     - (* a statement list *)
       destruct Ht as [<- He]. destruct l as [|s rest]; [apply simG_refl_normal; auto|].
+      cbn [forallb] in Hf. apply andb_true_iff in Hf. destruct Hf as [Hf1 Hf2].
       refine (simG_seq x (RT fuel (TkExec1 s env) x) (ST fuel (curp x) (fiber_depth (frames (ms x))) (SkExec1 s senv) sx)
                        (fun env' x' => RT fuel (TkExec rest env') x')
                        (fun senv' sx' => ST fuel (curp x) (fiber_depth (frames (ms x))) (SkExec rest senv') sx') _ _).
       + apply IH; auto. simpl; auto.
       + intros env' x' senv' sx' G' S' V'.
-        pose proof (IH (TkExec rest env') (SkExec rest senv') x' sx' G' (conj eq_refl V')) as H.
+        pose proof (IH (TkExec rest env') (SkExec rest senv') x' sx' G' Hf2 (conj eq_refl V')) as H.
         rewrite (curp_sameG x sx x' sx' G G' S'), (sm_frames _ _ S') in H.
         destruct S'. eapply SimG_trans; eauto.
     - (* one statement *)
@@ -2122,14 +2259,14 @@ Section Refine.
         apply simG_setattr; auto.
       + apply simG_get; auto. intros w _ Hok.
         destruct (cur_entryG x sx G) as (Hr & Hl & _).
-        apply (IH (TkCall env w) (SkCall senv (tv (ms x) w)) x sx G).
+        apply (IH (TkCall env w) (SkCall senv (tv (ms x) w)) x sx G eq_refl).
         split; [exact He|]. split; [reflexivity|]. intros m key ->. simpl in Hok. subst m. auto.
       + apply simG_resolve; auto. intros w Hm _. destruct w; try reflexivity.
         apply (simG_getattr x x sx id (fn_name f) "invoke"
                  (fun x2 u => RT fuel (TkCall env u) x2)
                  (fun u => ST fuel (curp x) (fiber_depth (frames (ms x))) (SkCall senv u) sx)); auto.
         intros u _ Hok.
-        apply (IH (TkCall env u) (SkCall senv (tv (ms x) u)) x sx G).
+        apply (IH (TkCall env u) (SkCall senv (tv (ms x) u)) x sx G eq_refl).
         split; [exact He|]. split; [reflexivity|]. intros m key ->. simpl in Hok. subst m.
         destruct (Hm id eq_refl) as [H1 H2]. split; [exact H1|left; exact H2].
       + apply (sim_raise_here x x sx (EThrow (VStr thrown_text)) (XVal (VStr thrown_text)) (SXVal (SStr thrown_text))); auto.
@@ -2143,21 +2280,26 @@ Section Refine.
         * apply simG_builtin3; auto.
         * apply simG_get; auto. intros w _ _. apply simG_get; auto. intros w2 _ _. apply simG_emit; auto.
         * apply simG_get; auto. intros w _ _. rewrite display_tv. apply simG_emit; auto.
-      + apply (IH (TkFiber (N.to_nat d) f env) (SkFiber (N.to_nat d) f senv) x sx G). split; [reflexivity|]. split; [reflexivity|exact He].
-      + apply (simG_try fuel x sx env senv body IH G He).
-      + refine (simG_seq x (RT fuel (TkExec body ([] :: env)) x) (ST fuel (curp x) (fiber_depth (frames (ms x))) (SkExec body ([] :: senv)) sx)
+      + apply (IH (TkFiber (N.to_nat d) f env) (SkFiber (N.to_nat d) f senv) x sx G eq_refl). split; [reflexivity|]. split; [reflexivity|exact He].
+      + rewrite ef_try in Hf. apply (simG_try fuel x sx env senv body IH G He Hf).
+      + rewrite ef_block in Hf.
+        refine (simG_seq x (RT fuel (TkExec body ([] :: env)) x) (ST fuel (curp x) (fiber_depth (frames (ms x))) (SkExec body ([] :: senv)) sx)
                          (fun _ x1 => RNormal env x1) (fun _ sx1 => QNormal senv sx1) _ _).
         * apply IH; auto. simpl. split; [reflexivity|]. constructor; [constructor|exact He].
         * intros env' x' senv' sx' G' [S1 S2 S3 S4] _. simpl. split; [exact G'|]. split; [exact S1|]. split; [exact S2|].
           split; [exact S3|]. split; [exact S4|]. apply (envrel_ext (ms x)); auto.
+      + (* a function value leaves its module: not in the escape-free fragment *)
+        simpl in Hf. discriminate.
+      + rewrite ef_lam in Hf. apply (simG_lamcall fuel x sx env senv body IH G He Hf).
     - destruct Ht as (He & -> & Hw). apply simG_call; auto.
     - destruct Ht as (<- & <- & He). apply simG_fiber; auto.
     - destruct Ht as [<- <-]. destruct ts as [|t rest]; [apply simG_refl_normal; auto; constructor|].
+      cbn [forallb] in Hf. apply andb_true_iff in Hf. destruct Hf as [Hf1 Hf2].
       cbn [run_task srun_task].
       assert (Hk : forall env' x' senv' sx', GoodG x' sx' -> Same x x' -> envrel (ms x') env' senv' ->
                    SimG x (RT fuel (TkTops rest src) x') (ST fuel (curp x) (fiber_depth (frames (ms x))) (SkTops rest src) sx')).
       { intros env' x' senv' sx' G' S' _.
-        pose proof (IH (TkTops rest src) (SkTops rest src) x' sx' G' (conj eq_refl eq_refl)) as H.
+        pose proof (IH (TkTops rest src) (SkTops rest src) x' sx' G' Hf2 (conj eq_refl eq_refl)) as H.
         rewrite (curp_sameG x sx x' sx' G G' S'), (sm_frames _ _ S') in H.
         destruct S'. eapply SimG_trans; eauto. }
       destruct t.
@@ -2170,7 +2312,8 @@ Section Refine.
                              (fun _ x' => RT fuel (TkTops rest src) x')
                              (fun _ sx' => ST fuel (curp x) (fiber_depth (frames (ms x))) (SkTops rest src) sx') _ Hk).
         apply (simG_define x x sx (var_name x0) (VNum n)); auto. exact Logic.I.
-      + refine (simG_seq_var x (bind_s (DS x (EDefineGlobal (fn_name f) (VFn (active (ms x)) (fn_key src f)))) (fun x1 _ => RNormal [] x1))
+      + change (closure_mod true x) with (active (ms x)).
+        refine (simG_seq_var x (bind_s (DS x (EDefineGlobal (fn_name f) (VFn (active (ms x)) (fn_key src f)))) (fun x1 _ => RNormal [] x1))
                              (QNormal [] (sset (curp x) sx (fn_name f) (SFn (curp x) (fn_key src f))))
                              (fun _ x' => RT fuel (TkTops rest src) x')
                              (fun _ sx' => ST fuel (curp x) (fiber_depth (frames (ms x))) (SkTops rest src) sx') _ Hk).
@@ -2203,15 +2346,26 @@ Section Refine.
     - split; [reflexivity|]. simpl. constructor; constructor.
   Qed.
 
-  (* THE REFINEMENT: for every program of the mini-language - any module map (modules present, missing,
-     uncompilable), any import graph, imports at top level / in functions / in try blocks, caught and uncaught
-     failures, re-imports after failures, the frame limit - and every fuel, the Mechanism's run shows exactly what
-     the Spec's run shows: the printed lines, the loader calls, the outcome. *)
-  Theorem mech_refines_spec fuel : mech_obs prog cm B fm true true true fuel C = spec_obs prog (B ++ C) fm fuel.
+  (* THE REFINEMENT.  Full statement, for every program of the mini-language and every fuel:
+         mech_obs prog cm B fm true true true true fuel C = spec_obs prog (B ++ C) fm fuel
+     - the Mechanism's run shows exactly what the Spec's run shows: the printed lines, the loader calls, the outcome.
+
+     Proved (`_partial`) for the ESCAPE-FREE programs (`ef_prog`: no statement `<alias>.f<g> = f<f>;` that stores a
+     function value in another module): any module map (modules present, missing, uncompilable), any import graph,
+     imports at top level / in functions / in try blocks / in fibers, closures created and called at run time
+     (SLamCall), caught and uncaught failures, re-imports after failed loads, the frame limit.
+     What is missing for the full statement: the relation `Rel` knows a module object by its path and relies on `vok`
+     (a function stored in an object's attributes was defined by that object); with escaped functions it has to
+     relate the Spec's retired instances "#n" with the Mechanism's unregistered objects.  For programs WITH escaping
+     functions M = S is checked by evaluation: the examples `ex_escape_*` below and every generated program of the
+     correspondence run (tools/props/C14.py compares the implementation with both). *)
+  Theorem mech_refines_spec_partial fuel : mech_obs prog cm B fm true true true true fuel C = spec_obs prog (B ++ C) fm fuel.
   Proof.
     unfold mech_obs, spec_obs. destruct prog as [|[ts| |k] rest] eqn:Ep; auto.
     rewrite <- Ep.
-    pose proof (simG_task fuel (TkTops ts 0) (SkTops ts 0) _ _ goodG_init (conj eq_refl eq_refl)) as H.
+    assert (Hts : forallb ef_top ts = true).
+    { pose proof Hef as H0. unfold ef_prog in H0. rewrite Ep in H0. simpl in H0. apply andb_true_iff in H0. apply H0. }
+    pose proof (simG_task fuel (TkTops ts 0) (SkTops ts 0) _ _ goodG_init Hts (conj eq_refl eq_refl)) as H.
     unfold exec_tops, sexec_tops.
     change (curp (mech_init B C)) with main_path in H.
     change (fiber_depth (frames (ms (mech_init B C)))) with 1 in H.
@@ -2233,18 +2387,20 @@ Section Refine.
 
   (* Stage A (proved first, now a special case): programs without try/catch *)
   Corollary mech_refines_spec_tryfree fuel :
-    tf_prog = true -> mech_obs prog cm B fm true true true fuel C = spec_obs prog (B ++ C) fm fuel.
-  Proof. intros _. apply mech_refines_spec. Qed.
+    tf_prog = true -> mech_obs prog cm B fm true true true true fuel C = spec_obs prog (B ++ C) fm fuel.
+  Proof. intros _. apply mech_refines_spec_partial. Qed.
 End Refine.
 
 Print Assumptions mech_refines_spec_tryfree.
-Print Assumptions mech_refines_spec.
+Print Assumptions mech_refines_spec_partial.
 
 (* ---------------------------------------------------------------------------------------------- *)
 (* what the try-free class contains (programs in the wire format of ModLang.parse_prog; B = print/type/Vec) *)
 Open Scope string_scope.
 Definition ex_B : list name := ["print"; "type"; "Vec"; "String"; "Fiber"].
-Definition ex_obs (w : string) : obs := mech_obs (parse_prog w) [] ex_B 64 true true true 200 [].
+Definition ex_obs (w : string) : obs := mech_obs (parse_prog w) [] ex_B 64 true true true true 200 [].
+(* the variant of closure_impl that takes the module REGISTERED under the function's path *)
+Definition ex_obs_reg (w : string) : obs := mech_obs (parse_prog w) [] ex_B 64 true true true false 200 [].
 Definition ex_spec (w : string) : obs := spec_obs (parse_prog w) (ex_B ++ []) 64 200.
 
 (* one module: globals, a function, a call *)
@@ -2287,3 +2443,33 @@ Example ex_agree :
   ex_obs ex_single = ex_spec ex_single /\ ex_obs ex_diamond = ex_spec ex_diamond /\ ex_obs ex_cycle = ex_spec ex_cycle
   /\ ex_obs ex_missing = ex_spec ex_missing /\ ex_obs ex_bad = ex_spec ex_bad.
 Proof. vm_compute. repeat split; reflexivity. Qed.
+
+(* ---- a function that outlives the failed load that defined it ----
+   m1's first load stores its function f1 in m3 (`a1.f9 = f1`) and then fails (m3.x5 is not defined yet).  main defines
+   m3.x5 and calls the OLD f1 through m3.f9: f1 imports m1 again (a fresh module object with its own x0 = 100), then
+   creates a closure that sets x0 = 7 and prints it, prints x0 itself and prints the new module's x0.
+   Spec and code: the closure belongs to the old instance - 7, 7, and the new module still has 100 (also seen from main).
+   The variant (closure bound to the module registered under the path): the closure writes the NEW module's x0 - 7, 100, 7, 7. *)
+Definition ex_escape_reload_inside : string :=
+  "0 5 3 0 13 5 1 0 0 8 103 5 1 11 103 9 5 1 0 7 101 0;0 5 3 1 20 0 100 21 1 5 1 2 18 4 0 7 3 0 0 3 0 7 2 0 0 17 1 9 1 7 1 5;1;0 21 9 0".
+(* the same with the reload done by main: m3.f8 first copies the old function to lib/m2 (`a2.f7 = f9`), because the
+   second load of m1 overwrites m3.f9 with the new f1 *)
+Definition ex_escape_reload_outside : string :=
+  "0 5 3 0 13 5 1 0 0 8 103 5 1 11 103 8 5 1 0 5 2 0 11 102 7 7 101 0;0 5 3 1 20 0 100 21 1 18 4 0 7 3 0 0 3 0 0 17 1 9 1 7 1 5;0;0 21 9 0 21 8 5 2 2 17 2 7 9 0".
+
+Example ex_escape_obs :
+  ex_obs ex_escape_reload_inside
+  = mkobs ["<class AttributeError>"; undefined_property "x5"; "1"; "7"; "7"; "100"; "100"] ["m3"; "m1"; "m1"] ObOk
+  /\ ex_obs ex_escape_reload_outside
+  = mkobs ["<class AttributeError>"; undefined_property "x5"; "1"; "7"; "7"; "100"] ["m3"; "m1"; "lib/m2"; "m1"] ObOk
+  /\ ex_obs ex_escape_reload_inside = ex_spec ex_escape_reload_inside
+  /\ ex_obs ex_escape_reload_outside = ex_spec ex_escape_reload_outside.
+Proof. vm_compute. repeat split; reflexivity. Qed.
+
+(* the variant does not refine the Spec *)
+Example ex_escape_refuted_registered :
+  ex_obs_reg ex_escape_reload_inside
+  = mkobs ["<class AttributeError>"; undefined_property "x5"; "1"; "7"; "100"; "7"; "7"] ["m3"; "m1"; "m1"] ObOk
+  /\ ex_obs_reg ex_escape_reload_inside <> ex_spec ex_escape_reload_inside
+  /\ ex_obs_reg ex_escape_reload_outside <> ex_spec ex_escape_reload_outside.
+Proof. vm_compute. repeat split; try reflexivity; intros H; discriminate. Qed.
